@@ -84,7 +84,8 @@ def pyval(x):
     return x
 
 
-def gen_batch(env, tag, arms, nmax, reward='real', nmin=1, d=0, fixed_n=None, ctx_name=None, fixed_dec=False):
+def gen_batch(env, tag, arms, nmax, reward='real', nmin=1, d=0, fixed_n=None, ctx_name=None, fixed_dec=False,
+              floatable=False):
     """a training batch whose size, row-to-arm assignment and values are chosen by the solver
     (fixed_dec: rows are assigned to the arms round-robin instead)"""
     n = fixed_n if fixed_n is not None else env.choose('n_%s' % tag, list(range(nmin, nmax + 1)))
@@ -98,7 +99,7 @@ def gen_batch(env, tag, arms, nmax, reward='real', nmin=1, d=0, fixed_n=None, ct
         rew = env.reals('r_%s' % tag, (n,), lo=0)
     else:
         rew = env.reals('r_%s' % tag, (n,))
-    ctx = env.reals(ctx_name or ('x_%s' % tag), (n, d)) if d else None
+    ctx = env.reals(ctx_name or ('x_%s' % tag), (n, d), floatable=floatable) if d else None
     return dec, rew, ctx
 
 
